@@ -31,6 +31,8 @@ type gen struct {
 	uid   map[string]bool // cookie value = pod uid
 	next  int
 	certv int
+	// twinSolo: twin hosts whose secret was renewed on its own (content differs from the others)
+	twinSolo map[string]bool
 }
 
 func (g *gen) pct(p int) bool { return g.rng.Intn(100) < p }
@@ -237,18 +239,26 @@ func (g *gen) newHost(i int) HostSpec {
 	h := HostSpec{Name: fmt.Sprintf("h%d.local", i)}
 	if g.rng.Intn(4) != 0 {
 		h.Crt = fmt.Sprintf("crt%d", i)
-		if g.rng.Intn(4) == 0 {
-			h.Crt = "shared"
-		}
 		g.certv++
 		h.Content = fmt.Sprintf("%s-v%d", h.Crt, g.certv)
+		switch g.rng.Intn(4) {
+		case 0:
+			// several hosts on one certificate file
+			h.Crt = "shared"
+			h.Content = fmt.Sprintf("shared-v%d", g.certv)
+		case 1:
+			// one certificate replicated in several secrets: distinct files, identical content
+			// (so identical TLSHash)
+			h.Crt = fmt.Sprintf("twin%d", i)
+			h.Content = g.twinContent()
+		}
 	}
 	return h
 }
 
 // Gen builds one history.
 func Gen(rng *rand.Rand, p Profile) (*Input, []string) {
-	g := &gen{rng: rng, p: p, dupOK: map[string]bool{}, uid: map[string]bool{}}
+	g := &gen{rng: rng, p: p, dupOK: map[string]bool{}, uid: map[string]bool{}, twinSolo: map[string]bool{}}
 	in := &Input{}
 	if rng.Intn(5) == 0 {
 		in.Shards = []int{1, 3, 8}[rng.Intn(3)]
@@ -261,7 +271,7 @@ func Gen(rng *rand.Rand, p Profile) (*Input, []string) {
 		g.backs = append(g.backs, g.newBack(i))
 	}
 	if p.Hosts {
-		nh := rng.Intn(3)
+		nh := rng.Intn(4)
 		for i := 1; i <= nh; i++ {
 			g.hosts = append(g.hosts, g.newHost(i))
 		}
@@ -269,6 +279,9 @@ func Gen(rng *rand.Rand, p Profile) (*Input, []string) {
 		g.syncShared()
 	}
 	first := Step{MaxConn: 1}
+	if len(g.backs) > 0 && rng.Intn(3) == 0 {
+		first.DefBack = g.backs[rng.Intn(len(g.backs))].ID()
+	}
 	for _, b := range g.backs {
 		first.Backs = append(first.Backs, cloneBack(b))
 	}
@@ -283,6 +296,19 @@ func Gen(rng *rand.Rand, p Profile) (*Input, []string) {
 		ops = append(ops, op)
 	}
 	return in, ops
+}
+
+func isTwin(h HostSpec) bool { return len(h.Crt) > 4 && h.Crt[:4] == "twin" }
+
+// twinContent is the content the replicated certificate has now.
+func (g *gen) twinContent() string {
+	for _, h := range g.hosts {
+		if isTwin(h) && !g.twinSolo[h.Name] {
+			return h.Content
+		}
+	}
+	g.certv++
+	return fmt.Sprintf("twin-v%d", g.certv)
 }
 
 func (g *gen) syncShared() {
@@ -334,8 +360,18 @@ func (g *gen) step() (Step, string) {
 	}
 	switch kind {
 	case 3:
-		st.MaxConn = 2 + rng.Intn(1000)
-		op += "global "
+		if len(g.backs) > 0 && rng.Intn(2) == 0 {
+			// the default backend moves to another (existing) backend, or goes away
+			if rng.Intn(4) == 0 {
+				st.DefBack = "-"
+			} else {
+				st.DefBack = g.backs[rng.Intn(len(g.backs))].ID()
+			}
+			op += "default-backend "
+		} else {
+			st.MaxConn = 2 + rng.Intn(1000)
+			op += "global "
+		}
 	case 4:
 		// a new backend
 		nb := g.newBack(len(g.backs) + 1 + rng.Intn(3)*10)
@@ -421,7 +457,35 @@ func (g *gen) step() (Step, string) {
 				op += "crt-file "
 			}
 		default:
-			if h.Crt != "" && rng.Intn(4) != 0 {
+			if isTwin(*h) && rng.Intn(4) != 0 {
+				// the replicated certificate is renewed: in every secret at once with one
+				// content, in every secret with its own content, or in this secret only
+				g.certv++
+				mode := rng.Intn(3)
+				for i := range g.hosts {
+					x := &g.hosts[i]
+					if !isTwin(*x) {
+						continue
+					}
+					switch {
+					case mode == 0:
+						x.Content = fmt.Sprintf("twin-v%d", g.certv)
+						g.twinSolo[x.Name] = false
+					case mode == 1:
+						x.Content = fmt.Sprintf("twin-v%d-%s", g.certv, x.Crt)
+						g.twinSolo[x.Name] = true
+					case x.Name == h.Name:
+						x.Content = fmt.Sprintf("twin-v%d-solo", g.certv)
+						g.twinSolo[x.Name] = true
+					default:
+						continue
+					}
+					if x.Name != h.Name {
+						st.Hosts = append(st.Hosts, *x)
+					}
+				}
+				op += []string{"twin-renew-all-same ", "twin-renew-all-distinct ", "twin-renew-one "}[mode]
+			} else if h.Crt != "" && rng.Intn(4) != 0 {
 				g.certv++
 				h.Content = fmt.Sprintf("%s-v%d", h.Crt, g.certv)
 				op += "crt-content "
